@@ -127,7 +127,16 @@ def _branches_on_flag(fn, flag):
         if isinstance(n, ast.If):
             t, neg = A.strip_not(n.test)
             if A.is_name(t, flag):
-                yield (n.orelse, n.body, n) if neg else (n.body, n.orelse, n)
+                true_b, false_b = (n.orelse, n.body) if neg else (n.body, n.orelse)
+                # early-exit style: when one arm always leaves, what follows the `if` belongs to the other arm
+                blk = [b_ for b_ in (getattr(A.parent(n), f_, None) for f_ in ('body', 'orelse', 'finalbody'))
+                       if isinstance(b_, list) and any(x is n for x in b_)]
+                rest = blk[0][[x is n for x in blk[0]].index(True) + 1:] if blk else []
+                if rest and true_b and flow.always_exits(true_b) and not (false_b and flow.always_exits(false_b)):
+                    false_b = list(false_b) + rest
+                elif rest and false_b and flow.always_exits(false_b) and not (true_b and flow.always_exits(true_b)):
+                    true_b = list(true_b) + rest
+                yield (true_b, false_b, n)
 
 
 def rule_w3(ctx):
@@ -160,6 +169,13 @@ def rule_w3(ctx):
                 n += 1
                 does = any(isinstance(x, (ast.Raise, ast.Return, ast.Yield, ast.YieldFrom, ast.Assign, ast.AugAssign, ast.For, ast.While))
                            for x in A.walk_stmts(true_b))
+                if not does and not true_b and flow.always_exits(false_b):
+                    # `if not with_key: <plain iteration>; return` - what follows the `if` IS the with_key branch
+                    blk = [b_ for b_ in (getattr(A.parent(ifn), f_, None) for f_ in ('body', 'orelse', 'finalbody'))
+                           if isinstance(b_, list) and any(x is ifn for x in b_)]
+                    rest = blk[0][[x is ifn for x in blk[0]].index(True) + 1:] if blk else []
+                    does = any(isinstance(x, (ast.Raise, ast.Return, ast.Yield, ast.YieldFrom, ast.Assign, ast.AugAssign, ast.For, ast.While))
+                               for x in A.walk_stmts(rest))
                 rep.ob('W', K.key(cls, fn.name, 'with_key-branch-has-an-effect'), does, ifn,
                        '' if does else 'with_key is tested but the branch does nothing: items() falls through to the plain '
                        'iteration and yields bare examples instead of pairs (or instead of refusing)')
@@ -423,10 +439,12 @@ def _index_of_lookup(expr, fctx, include_self=True):
     return out
 
 
-def rule_p(ctx):
+def rule_p(ctx, only=None, floor=12):
     rep = ctx.report
     classified = 0
     for cls in K.family(ctx):
+        if only is not None and cls.name not in only:
+            continue
         for mname in ('__iter__', '__getitem__'):
             mem = cls.own(mname)
             if mem is None or not mem.is_function:
@@ -456,6 +474,26 @@ def rule_p(ctx):
                         rep.ob('P', where + '::pair-same-index(%s)' % A.short(a1.slice, 20), ok, stmt,
                                '' if ok else 'key taken at index %s but example at %s' % (
                                    A.short(a1.slice), ', '.join(A.short(j) for j in idxs)))
+                        # ... and the key tuple indexed is the keys() of the very dataset the example is looked up in
+                        # (positions of self.keys() and of input.keys() differ as soon as the stage selects or reorders)
+                        kc = flow.expand(a1.value, f)
+                        if isinstance(kc, ast.Call) and isinstance(kc.func, ast.Attribute) and kc.func.attr == 'keys' and not kc.args:
+                            owners = [n2.value for n2 in ast.walk(b) if isinstance(n2, ast.Subscript)
+                                      and fctx.kind(n2.value) in ('DS', 'SELF')]
+                            kowner = kc.func.value
+                            if A.is_name(kowner, 'self'):
+                                km = cls.resolve('keys')
+                                krets = [r for r in flow.returns_of(km.node)] if km is not None and km.is_function else []
+                                if len(krets) == 1 and isinstance(krets[0].value, ast.Call) and not krets[0].value.args \
+                                        and isinstance(krets[0].value.func, ast.Attribute) and krets[0].value.func.attr == 'keys' \
+                                        and len([x for x in km.node.body if not (isinstance(x, ast.Expr) and isinstance(x.value, ast.Constant))]) == 1:
+                                    kowner = krets[0].value.func.value      # keys() is a pure forwarder
+                            oko = bool(owners) and all(A.same(flow.expand(o, f), kowner) or A.same(flow.expand(o, f), kc.func.value)
+                                                       for o in owners)
+                            rep.ob('P', where + '::pair-keys-of-the-dataset-looked-up(%s)' % A.short(kc.func.value, 30), oko, stmt,
+                                   '' if oko else 'the key comes from %s.keys() but the example from %s[...]: position i of the two '
+                                   'differs whenever this stage selects or reorders' % (
+                                       A.short(kc.func.value, 30), ', '.join(A.short(o, 30) for o in owners)))
                     elif isinstance(a1, ast.Name) and idxs:
                         # (k, ds[k]) or (item, ds[keys().index(item)])
                         def same_key(j):
@@ -493,7 +531,7 @@ def rule_p(ctx):
                                 where, A.short(stmt)))
                     else:
                         rep.note('pair not classified: %s %s' % (where, A.short(stmt)))
-    rep.floor('(key, example) pair sites classified', classified, 12)
+    rep.floor('(key, example) pair sites classified', classified, floor)
 
 
 def rule_mv(ctx):
